@@ -256,8 +256,38 @@ def iters_entry(I):
                             back.append([k2, dec(spec.View(I, s2), v2) if k2 == "return" else m2])
                         rec["inverse"] = back
                 recs.append(rec)
-    # ---- Descendants: closure table of its find_map
+    # ---- Descendants without a find_map closure (an explicit loop over the inner traversal): step table with the inner Traverse::next scripted
     dk = [k for k in I.fns if k.startswith("<crate::traverse::Descendants<") and k.endswith("::next::{closure#0}")]
+    dn = [k for k in I.fns if k.startswith("<crate::traverse::Descendants<") and k.endswith("::next")]
+    tnext = I.impl_index.get((ITER_T, "next", TRV + "Traverse"))
+    if not dk and dn and tnext:
+        dty = None
+        for (name, ty, nextk, backk, newk) in iter_kinds(I):
+            if name == "Descendants":
+                dty = ty
+        scripts = [("Start",), ("End", "Start"), ("End", "End", "Start"), ("End", None), (None,)]
+        for script in scripts:
+            st = State()
+            x = st.new_node(True, "root")
+            cs = [st.new_node(True, "node of edge %d" % i) for i in range(len(script))]
+            vals = [none() if kind is None else some(VEnum(EDGE, kind, (("0", st.id_of(cs[i])),))) for i, kind in enumerate(script)]
+            st.meta["stubs"] = {tnext: vals}
+            try:
+                val = build(I, dty, lambda k, p: st.id_of(x) if k == "id" else none())
+                slot = st.new_temp(val)
+                outs = run_fn(I, st, dn[0], lambda s: [VRef(slot, (), True)])
+            except (Undecided, Panic) as ex:
+                recs.append({"entry": "iters", "table": "Descendants::next::steps", "case": [str(k) for k in script], "exit": "undecided", "msg": str(ex)})
+                continue
+            for (s1, k1, v1, m1) in outs:
+                rec = {"entry": "iters", "table": "Descendants::next::steps", "case": [str(k) for k in script], "exit": k1, "msg": m1}
+                if k1 == "return":
+                    rec["result"] = dec(spec.View(I, s1), v1)
+                    rec["inner_calls"] = s1.meta.get("stub_count", {}).get(tnext, 0)
+                    rec["expected"] = ["Some", cs[len(script) - 1]] if script[-1] == "Start" else None
+                    rec["writes"] = len([e for e in s1.events if e[0] in ("write", "write-arena", "push", "clear")])
+                recs.append(rec)
+    # ---- Descendants: closure table of its find_map
     for key in dk:
         for variant in ("Start", "End"):
             st = State()
